@@ -28,7 +28,8 @@ func ParseJSONB(data []byte) interface{} {
 	count := int(header & jbCMask)
 	isObj, isArr := header&jbFObject != 0, header&jbFArray != 0
 
-	if (!isObj && !isArr) || count <= 0 || count > 10000 {
+	// count == 0 is a valid (empty) object or array
+	if (!isObj && !isArr) || count > 10000 {
 		return nil
 	}
 
